@@ -20,7 +20,8 @@
 (*              totals                                                      *)
 (* Session: final (stable List reading), accepted/toFirst/toSecond/          *)
 (* stillOpen (the ledger at that reading), snaps (readings in flight with    *)
-(* the ledger taken after them), halted/haltClosed/orphan.                   *)
+(* the ledger taken after them), halted/haltClosed/orphan, afterHalt (stable *)
+(* reading after the halt, when the session still exists).                   *)
 (*                                                                         *)
 (* The step relation is total; the schedule is not recorded, and none is     *)
 (* needed: every operator holds in every reachable state of the model that   *)
@@ -83,7 +84,7 @@ Sum(f, n) == IF n = 0 THEN 0 ELSE f[n] + Sum(f, n - 1)
 
 SessionWellFormed(r) ==
   /\ \A f \in {"final", "stable", "settled", "accepted", "toFirst", "toSecond", "stillOpen", "halted",
-               "haltClosed", "conns", "snaps", "orphan"} : Has(r, f)
+               "haltClosed", "conns", "snaps", "orphan", "afterHalt"} : Has(r, f)
   /\ Has(r.in, "conns") /\ Has(r.in, "open") /\ Has(r.in, "halt")
   /\ Len(r.conns) = Len(r.in.conns) /\ Len(r.in.open) = Len(r.in.conns)
   /\ \A k \in DOMAIN r.conns : ConnWellFormed(r.in.conns[k], r.conns[k])
@@ -106,8 +107,10 @@ SessionFails(i, r) ==
     \o Chk(Want, i, "C33_Counters",
            /\ r.stable => /\ C33_CountersRest(r.final, r.accepted, r.toFirst, r.toSecond, r.stillOpen)
                           /\ C33_CountersDirection(r.final, r.toFirst, r.toSecond)
-           \* the open-connection count returns to zero
-           /\ (r.stable /\ r.settled /\ \A k \in K : ~r.in.open[k]) => r.final.open = 0
+           \* the open-connection count returns to zero: when every connection is over ...
+           /\ (r.stable /\ r.settled /\ \A k \in K : ~r.in.open[k]) => C33_OpenReturnsToZero(r.final)
+           \* ... and when the forwarding loop that carried them is gone (paused, or replaced after a failure)
+           /\ (r.halted /\ r.haltClosed /\ Has(r.afterHalt, "open")) => C33_OpenReturnsToZero(r.afterHalt)
            /\ \A s \in DOMAIN r.snaps :
                 C33_CountersBound(r.snaps[s], r.snaps[s].accAfter, r.snaps[s].toFirstAfter, r.snaps[s].toSecondAfter))
     \o Chk(Want, i, "C33_TraceAccepted", Coherent)
